@@ -106,5 +106,24 @@ func TestVerifC19Gin(t *testing.T) {
 			return c19Drive{HandlerCalls: calls, Rejected: calls == 0 && later == 0}
 		})
 	}
+	// an explicitly nil fallback option is "no fallback configured": a blocked request gets the default rejection and
+	// the handler is not invoked
+	calls = 0
+	r3 := gin.New()
+	r3.Use(SentinelMiddleware(WithBlockFallback(nil)))
+	r3.GET("/n/:id", func(c *gin.Context) { calls++; c.String(200, "ok") })
+	for _, blocked := range []bool{false, true} {
+		calls = 0
+		if blocked {
+			c19SetBlocked("GET:/n/:id")
+		} else {
+			c19SetBlocked()
+		}
+		c19Case(t, "gin", "SentinelMiddleware", "nil-fallback-option", "GET:/n/:id", blocked, "ok", false, func() c19Drive {
+			w := httptest.NewRecorder()
+			r3.ServeHTTP(w, httptest.NewRequest("GET", "/n/1", nil))
+			return c19Drive{HandlerCalls: calls, Rejected: w.Code == http.StatusTooManyRequests}
+		})
+	}
 	c19SetBlocked()
 }
